@@ -44,6 +44,12 @@ pub enum Spec17 {
     /// stream-level: `blocks` full 64-sample blocks plus a tail of `tail` samples; out-of-range
     /// samples either everywhere (`all_bad`) or once in the last block (channel `ch`, last position)
     StreamBadSample { mt: bool, workers: usize, channels: usize, blocks: usize, tail: usize, all_bad: bool, ch: usize },
+    /// one FrameBuf used through BOTH fill flavours: `first_bytes` valid bytes-per-sample fill
+    /// (0 = a valid integer fill), then an integer (or byte) fill holding one out-of-range sample
+    FrameMixedFills { first_bytes: usize, second_bytes: bool, channels: usize, value: i32 },
+    /// the library's own MemSource (its len_hint divides by the channel count) through the
+    /// stream-level entry point
+    MemSourceEnc { mt: bool, channels: usize, bps: usize, rate: usize },
 }
 
 fn channel_values() -> Vec<usize> {
@@ -164,6 +170,26 @@ pub fn grid17() -> Vec<Spec17> {
             }
         }
     }
+    for first_bytes in [0usize, 1, 2, 3, 4] {
+        for second_bytes in [false, true] {
+            for channels in [1usize, 2, 3] {
+                for value in [40_000i32, -40_000, 1 << 15, -(1 << 15) - 1, i32::MAX, i32::MIN] {
+                    g.push(Spec17::FrameMixedFills { first_bytes, second_bytes, channels, value });
+                }
+            }
+        }
+    }
+    for mt in [false, true] {
+        for c in channel_values() {
+            g.push(Spec17::MemSourceEnc { mt, channels: c, bps: 16, rate: 44100 });
+        }
+        for b in [0usize, 1, 7, 8, 16, 24, 25, 32, 33, 256 + 16, M] {
+            g.push(Spec17::MemSourceEnc { mt, channels: 2, bps: b, rate: 44100 });
+        }
+        for r in rate_values() {
+            g.push(Spec17::MemSourceEnc { mt, channels: 2, bps: 16, rate: r });
+        }
+    }
     for bytes in [false, true] {
         for channels in [1usize, 2, 8] {
             for (cap, new_size) in [(100usize, 150usize), (150, 100), (64, 32), (32, 64), (4096, 32), (100, 101)] {
@@ -260,6 +286,12 @@ fn domain17(s: &Spec17) -> Dom {
         }
         Spec17::FillRagged { .. } => Dom::Unlisted,
         Spec17::FramePartialBad { .. } | Spec17::StreamBadSample { .. } => Dom::Invalid,
+        Spec17::FrameMixedFills { second_bytes, value, .. } => {
+            // a 4-byte little-endian sample can carry any i32; the frame is declared 16 bit
+            let _ = second_bytes;
+            if (-(1i64 << 15)..(1i64 << 15)).contains(&i64::from(*value)) { Dom::Valid } else { Dom::Invalid }
+        }
+        Spec17::MemSourceEnc { channels, bps, rate, .. } => all(&[ch(*channels), width_dom(*bps), rt(*rate)]),
         Spec17::FillAfterResize { new_size, samples, .. } => {
             if samples > new_size {
                 Dom::Invalid
@@ -459,6 +491,47 @@ fn exec17(s: &Spec17) -> String {
                     Err(_) => "Err".into(),
                 }
             }
+            Spec17::FrameMixedFills { first_bytes, second_bytes, channels, value } => {
+                let v = enc::verified(&cfg).unwrap();
+                let mut fb = FrameBuf::with_size(*channels, 64).unwrap();
+                // a first, valid fill through one flavour
+                if *first_bytes == 0 {
+                    fb.fill_interleaved(&vec![7i32; 64 * channels]).unwrap();
+                } else {
+                    let by = gen::to_le_bytes(&vec![7i32; 64 * channels], *first_bytes);
+                    fb.fill_le_bytes(&by, *first_bytes).unwrap();
+                }
+                // then a fill holding one out-of-range sample through the other (or the same) one
+                let mut d = vec![1i32; 48 * channels];
+                d[(20 * channels) + channels - 1] = *value;
+                let r = if *second_bytes { fb.fill_le_bytes(&gen::to_le_bytes(&d, 4), 4) } else { fb.fill_interleaved(&d) };
+                if r.is_err() {
+                    return "Err".into();
+                }
+                let si = StreamInfo::new(44100, *channels, 16).unwrap();
+                match flacenc::encode_fixed_size_frame(&v, &fb, 0, &si) {
+                    Ok(_) => "Ok".into(),
+                    Err(_) => "Err".into(),
+                }
+            }
+            Spec17::MemSourceEnc { mt, channels, bps, rate } => {
+                cfg.multithread = *mt;
+                cfg.block_size = 256;
+                let v = enc::verified(&cfg).unwrap();
+                let samples: Vec<i32> = (0..600i32).map(|t| (t * 37) % 101 - 50).collect();
+                let src = flacenc::source::MemSource::from_samples(&samples, *channels, *bps, *rate);
+                match flacenc::encode_with_fixed_block_size(&v, src, 256) {
+                    Ok(stream) => {
+                        let si = stream.stream_info();
+                        if si.channels() == *channels && si.bits_per_sample() == *bps && si.sample_rate() == *rate {
+                            "Ok".into()
+                        } else {
+                            format!("Ok-WRONG:stream states rate={} ch={} bps={}", si.sample_rate(), si.channels(), si.bits_per_sample())
+                        }
+                    }
+                    Err(_) => "Err".into(),
+                }
+            }
             Spec17::StreamBadSample { mt, workers, channels, blocks, tail, all_bad, ch } => {
                 cfg.multithread = *mt;
                 cfg.workers = NonZeroUsize::new(*workers);
@@ -560,6 +633,8 @@ fn spec17_class(s: &Spec17) -> String {
         Spec17::FrameBufNew { channels, size } => format!("FrameBuf::with_size(ch={},size={})", v(*channels), v(*size)),
         Spec17::FillInt { target, channels, cap, samples } => format!("{}::fill_interleaved(ch={},cap={},samples_per_channel={})", ["FrameBuf", "Context", "(FrameBuf,Context)"][*target as usize], channels, cap, samples),
         Spec17::FillBytes { target, channels, cap, bps, bytes_per_sample, nbytes } => format!("{}::fill_le_bytes(ch={},cap={},bps={},bytes_per_sample={},nbytes={})", ["FrameBuf", "Context", "(FrameBuf,Context)"][*target as usize], channels, cap, bps, v(*bytes_per_sample), nbytes),
+        Spec17::FrameMixedFills { first_bytes, second_bytes, channels, value } => format!("FrameBuf({channels} ch): {} then {} holding {value}, encode_fixed_size_frame at 16 bit", if *first_bytes == 0 { "fill_interleaved".to_string() } else { format!("fill_le_bytes(.., {first_bytes})") }, if *second_bytes { "fill_le_bytes(.., 4)" } else { "fill_interleaved" }),
+        Spec17::MemSourceEnc { mt, channels, bps, rate } => format!("encode_with_fixed_block_size[{}](MemSource ch={},bps={},rate={})", if *mt { "mt" } else { "st" }, v(*channels), v(*bps), v(*rate)),
         Spec17::FramePartialBad { channels, filled, ch, pos, value } => format!("encode_fixed_size_frame({channels} ch, buffer of 64 filled with {filled}, sample {value} in channel {ch} at {} of the filled part, 16 bit)", ["the start", "the middle", "the end"][*pos as usize]),
         Spec17::StreamBadSample { mt, workers, channels, blocks, tail, all_bad, ch } => format!("encode_with_fixed_block_size[{}, W={workers}]({channels} ch x 16 bit, {blocks} blocks of 64 + {tail}: {})", if *mt { "mt" } else { "st" }, if *all_bad { "every sample is 24-bit material".to_string() } else { format!("last sample of channel {ch} = 40000") }),
         Spec17::FillRagged { target, bytes, channels, cap, bps, whole, extra } => format!("{}::{}(ch={},cap={},bps={}: {} whole inter-channel samples + {} stray {})", ["FrameBuf", "Context", "(FrameBuf,Context)"][*target as usize], if *bytes { "fill_le_bytes" } else { "fill_interleaved" }, channels, cap, bps, whole, extra, if *bytes { "bytes" } else { "values" }),
@@ -607,6 +682,8 @@ fn spec17_sig(s: &Spec17, outcome: &str) -> String {
         Spec17::FillInt { target, .. } => format!("{}::fill_interleaved|too-long", ["FrameBuf", "Context", "Tuple"][*target as usize]),
         Spec17::FillBytes { target, bytes_per_sample, .. } => format!("{}::fill_le_bytes|{}", ["FrameBuf", "Context", "Tuple"][*target as usize], if *bytes_per_sample == 0 { "bps0" } else if *bytes_per_sample > 4 { "bps>4" } else { "mismatch-or-too-long" }),
         Spec17::FramePartialBad { .. } => "encode_frame|sample-in-partial-block".into(),
+        Spec17::FrameMixedFills { .. } => "encode_frame|sample-after-mixed-fills".into(),
+        Spec17::MemSourceEnc { mt, .. } => format!("encode_stream[{}]|MemSource", if *mt { "mt" } else { "st" }),
         Spec17::StreamBadSample { mt, all_bad, .. } => format!("encode_stream[{}]|{}", if *mt { "mt" } else { "st" }, if *all_bad { "all-samples" } else { "sample-in-last-block" }),
         Spec17::FillRagged { target, bytes, .. } => format!("{}::{}|ragged-length", ["FrameBuf", "Context", "Tuple"][*target as usize], if *bytes { "fill_le_bytes" } else { "fill_interleaved" }),
         Spec17::FillAfterResize { bytes, .. } => format!("FrameBuf::resize+{}|too-long", if *bytes { "fill_le_bytes" } else { "fill_interleaved" }),
@@ -1088,10 +1165,47 @@ pub fn run_c18(ctx: &Ctx) -> i32 {
         },
         &|idx| format!("constructor-case(#{idx})"),
     );
-    let out = std::mem::take(&mut *out.lock().unwrap());
+    let mut out = std::mem::take(&mut *out.lock().unwrap());
+    // every block size 0..=32769 (and 65535, 65536) through FrameHeader::new, in-process: an
+    // accepted header must write count_bits() bits and parse back to the same block size / bytes
+    crate::common::run_cases(ctx, "header_blocksizes", 32_772, &mut out, |idx, out| {
+        use flacenc::component::BitRepr;
+        let bs = match idx {
+            32_770 => 65_535,
+            32_771 => 65_536,
+            i => i as usize,
+        };
+        let r = catch(|| FrameHeader::new(bs, ChannelAssignment::Independent(2), 16, 44100, FrameOffset::Frame((idx % 200) as u32)));
+        out.evaluations += 1;
+        let rp = || json!({"monitor": "C18", "sub": "header_blocksizes", "index": idx, "seed": ctx.seed, "tier": ctx.tier.name(), "case": {"block_size": bs}});
+        match r {
+            Ok(Ok(h)) => {
+                out.count("accepted_FrameHeader_blocksize_sweep");
+                check_bits(ctx, "FrameHeader", &h, out, &rp);
+                if let Ok(bytes) = enc::to_bytes(&h) {
+                    type ByteErr<'a> = nom::error::Error<&'a [u8]>;
+                    let parsed = catch(|| {
+                        let mut p = flacenc::component::parser::frame_header::<ByteErr<'_>>(true);
+                        p(&bytes[..]).ok().map(|(rest, x)| (rest.len(), x.block_size(), enc::to_bytes(&x).unwrap_or_default()))
+                    });
+                    match parsed {
+                        Ok(Some((rest, pbs, b2))) => {
+                            if rest != 0 || pbs != bs || b2 != bytes {
+                                out.violation("C18|FrameHeader|parse-back-differs", format!("FrameHeader::new(block size {bs}) parses back as block size {pbs} ({rest} bytes unconsumed, {} vs {} bytes)", b2.len(), bytes.len()), rp());
+                            }
+                        }
+                        Ok(None) => out.violation("C18|FrameHeader|parser-rejects", format!("the header of block size {bs} does not parse back ({} bytes, count_bits {})", bytes.len(), h.count_bits()), rp()),
+                        Err(p) => out.violation(format!("C18|FrameHeader|parser-panic|{}", p.site()), p.short(), rp()),
+                    }
+                }
+            }
+            Ok(Err(_)) => out.count("refused_FrameHeader_blocksize_sweep"),
+            Err(p) => out.violation(format!("C18|FrameHeader::new|panic|{}", p.site()), p.short(), rp()),
+        }
+    });
     let fin = Finish {
         level: "exploration",
-        rule: "random + boundary arguments (consistent, off-by-one, inconsistent lengths, orders above the block size, parameters above 14, precision/order 0, coefficients wider than the precision, block size 0/65535/2^20, warm-up longer than the block) for Residual::new, QuantizedParameters::new, Constant::new, Verbatim::new, FixedLpc::new, Lpc::new, FrameHeader::new, Frame::new, StreamInfo::new + setters, MetadataBlockData::new_unknown; a call may return Err; if it returns Ok the component must verify, write without panicking exactly count_bits() bits into MemSink<u8>/MemSink<u64>/a user sink, and the matching component::parser function must parse those bits back into a component with identical Debug rendering and serialisation; every call runs in a supervised child; distinct = distinct case indices",
+        rule: "random + boundary arguments (consistent, off-by-one, inconsistent lengths, orders above the block size, parameters above 14, precision/order 0, coefficients wider than the precision, block size 0/65535/2^20, warm-up longer than the block) for Residual::new, QuantizedParameters::new, Constant::new, Verbatim::new, FixedLpc::new, Lpc::new, FrameHeader::new, Frame::new, StreamInfo::new + setters, MetadataBlockData::new_unknown; a call may return Err; if it returns Ok the component must verify, write without panicking exactly count_bits() bits into MemSink<u8>/MemSink<u64>/a user sink, and the matching component::parser function must parse those bits back into a component with identical Debug rendering and serialisation; every call runs in a supervised child; plus FrameHeader::new for EVERY block size 0..=32769, 65535, 65536 (in-process); distinct = distinct case indices",
         assumptions: vec![],
         exhaustive: None,
         floors: vec![],
